@@ -55,7 +55,11 @@ C18(pre, e, post, line) ==
              hi == IF ir.curve_type = 1 THEN RRate(ir.hundred) ELSE R(ir.max_rate)
              tol == RMul(TINY, RAdd(RInt(2), MaxSlope(ir)))
              feesNonNeg == ~Has(e.a, "fees") \/ (\A k \in DOMAIN e.a.fees : TRUE)
+             \* (it is not clamped, but it still has to be defined there: a bank at full utilization charging any fee is above 100 %
+             \*  after its next accrual, and "an accepted curve can never by itself make interest accrual fail")
+             beyond == {i \in DOMAIN rs0 : ir.curve_type # 1 /\ BGt(rs0[i].ur, FOne) /\ BLe(rs0[i].ur, BAdd(FOne, FOne))}
          IN /\ Chk("C18", "base_rate_defined_everywhere", line, \A i \in DOMAIN rs : rs[i].def, [n |-> Cardinality(keep)])
+            /\ Chk("C18", "legacy_rate_defined_beyond_full_utilization", line, \A i \in beyond : rs0[i].def, [n |-> Cardinality(beyond)])
             /\ (\A i \in DOMAIN rs : rs[i].def) =>
                  /\ Chk("C18", "between_zero_and_full_utilization_rates", line,
                         \A i \in DOMAIN rs : RGe(R(rs[i].base), RSub(lo, tol)) /\ RLe(R(rs[i].base), RAdd(hi, tol)), [lo |-> lo[1]])
